@@ -8,7 +8,15 @@
 use crate::common::*;
 use std::mem::{ManuallyDrop, MaybeUninit};
 
+/// the driver's own asserts compare against hand-computed values; a failing assert (or any panic) means a safe API
+/// returned garbage or panicked unexpectedly: reported as a violation, not as a harness crash
 fn misc_safe_api(rep: &mut Report) {
+    if let Err(p) = catch(|| misc_safe_api_inner(rep)) {
+        rep.violation(viol("misc-safe-api", "driver", "misc".into(), "driver for maybe_uninit / manually_drop / ptr / nonnull / array macros / destructure! / DSL macros".into(), "all results as documented, no panic".into(), format!("panic: {p}")));
+    }
+}
+
+fn misc_safe_api_inner(rep: &mut Report) {
     use konst::{manually_drop, maybe_uninit, ptr};
     // maybe_uninit
     let arr: [MaybeUninit<String>; 3] = maybe_uninit::uninit_array::<String, 3>();
@@ -71,7 +79,23 @@ fn misc_safe_api(rep: &mut Report) {
     let mut n = 0;
     let r = catch(|| konst::array::map_!(s2, |s| { n += 1; if n == 2 { panic!("x") } s }));
     assert!(r.is_err());
-    rep.transitions += 10;
+    // hostile control flow inside the closure: a one-off `continue` re-runs the element, a `break` must be refused;
+    // in neither case may an unwritten slot reach array_assume_init (the interpreter flags the uninitialised read)
+    let mut once = true;
+    let h1 = konst::array::map!(a3, |x| { if once { once = false; continue; } x as u16 + 1 });
+    assert_eq!(h1, [2, 3, 4]);
+    let mut once = true;
+    let h2: [usize; 3] = konst::array::from_fn!(|i| { if i == 1 && once { once = false; continue; } i * 2 });
+    assert_eq!(h2, [0, 2, 4]);
+    for k in 0..3usize {
+        let mut n = 0usize;
+        let r = catch(|| konst::array::map!(a3, |x| { let i = n; n += 1; if i == k { break; } x }));
+        assert!(r.is_err(), "break inside array::map! must not yield an array");
+        let mut n = 0usize;
+        let r = catch(|| konst::array::from_fn_!(|_i| { let i = n; n += 1; if i == k { break; } String::from("s") }));
+        assert!(r.map(|a: [String; 3]| a.len()).is_err(), "break inside array::from_fn_! must not yield an array");
+    }
+    rep.transitions += 20;
 
     // destructure! incl. packed / generic / arrays with rest
     #[repr(packed)]
